@@ -209,6 +209,17 @@ def sample_config(rng, family=None, families=None, n_range=(2, 14), d_range=(1, 
         cfg["big"] = True
     if rng.random() < 0.08 and n >= 2:
         cfg["data_kind"] = "duplicates"
+    fmask = p.get("feature_mask") if fam.get("douglas") else None
+    if rng.random() < (0.3 if fmask is not None else 0.08) and d >= 2:
+        # degenerate columns (a flag that takes one value in this sample): constant in the first data set, or in all of them
+        cols = rng.sample(range(d), rng.randint(1, min(2, d - 1)))
+        if fmask is not None and sum(fmask) >= 2 and rng.random() < 0.7:
+            cols = [rng.choice([i for i in range(d) if fmask[i]])]     # a column the model really cuts
+        cfg["const_cols"] = [[c, choice(rng, [0.0, 1.0, -2.5])] for c in sorted(cols)]
+        cfg["const_scope"] = choice(rng, ["first", "all"])
+    if rng.random() < 0.08:
+        # hyper-parameters that come out of numpy computations (np.int64 batch sizes, np.float64 rates) are Integral / Real
+        cfg["np_scalars"] = True
     if uses_precomputed(cfg):
         if gemini_ref_spec(cfg)[0] == "mmd":
             cfg["affinity_src"] = choice(rng, ["linear", "rbf", "polynomial", "laplacian"])
@@ -254,6 +265,10 @@ def make_data(config, which=0):
         for _ in range(max(1, n // 4)):
             i, j = rs.randint(n), rs.randint(n)
             X[i] = X[j]
+    if config.get("const_cols") and (which == 0 or config.get("const_scope") == "all"):
+        for c, v in config["const_cols"]:
+            if c < X.shape[1]:
+                X[:, c] = v
     return X
 
 
@@ -342,7 +357,24 @@ def build_params(config, log=None, kernel_raise_at=None):
         p["feature_mask"] = np.array(p["feature_mask"], dtype=bool).astype(config.get("mask_dtype", "bool"))
     if p.get("groups") is not None:
         p["groups"] = [list(g) for g in p["groups"]]
+    if config.get("np_scalars"):
+        p = numpy_scalars(p)
     return p
+
+
+def numpy_scalars(p):
+    """The same hyper-parameter values as numpy scalars (numbers.Integral / numbers.Real, as parameter validation demands)."""
+    out = {}
+    for k, v in p.items():
+        if isinstance(v, bool) or v is None:
+            out[k] = v
+        elif isinstance(v, int):
+            out[k] = np.int64(v)
+        elif isinstance(v, float):
+            out[k] = np.float64(v)
+        else:
+            out[k] = v
+    return out
 
 
 def build_model(config, log=None, kernel_raise_at=None):
